@@ -52,7 +52,7 @@ func (k *c06) Setup(c *core.Ctx) (int, error) {
 	imp("ch.swissquote", "swissquote", "--account", "Assets:Swissquote", "--dividend", "Income:Dividends", "--fee", "Expenses:Fees", "--interest", "Income:Interest", "--tax", "Expenses:Tax", "--trading", "Expenses:Trading")
 	imp("ch.viac", "viac", "--commodity", "Viac")
 	imp("com.wise", "wise", "--account", "Assets:Accounts:Wise", "--fee", "Expenses:Fees", "--trading", "Expenses:Trading")
-	return c.N(60, 600), nil
+	return c.N(100, 1000), nil
 }
 
 func (*c06) Finish(c *core.Ctx) {
